@@ -6,6 +6,8 @@ extern "C" {
 void CB_DataChannel_handler(::DataChannel *self);
 void CB_Apbp_Impl_semaphore_handler(::Apbp_Impl *self);
 }
+#define BRIDGE_WANT_Apbp_Impl
+#define BRIDGE_WANT_DataChannel
 #include "apbp_bridge.inc"
 namespace {
 struct Rig {
